@@ -4,6 +4,10 @@ Supports the integer/branch subset of LLVM IR; anything else raises AnalysisBrok
 from ..frontend import AnalysisBroken
 
 
+class OutOfInput(Exception):
+    pass
+
+
 def _bits(ty):
     if ty and ty.startswith("i") and ty[1:].isdigit():
         return int(ty[1:])
@@ -31,14 +35,18 @@ class FEval:
         for i in f.all_insts():
             self.optype[i.id] = i.ty
 
-    def run(self, fields, args, max_steps=5000):
+    def run(self, fields, args, max_steps=5000, arrays=None, callees=None, share=False):
         """fields: dict field-index -> int (state), args: dict param id -> int.
+        arrays: dict param id -> bytes (a parameter that points to constant input bytes);
+        callees: dict ir-name -> FEval for direct calls that are handed the state pointer as their first argument.
         returns (ret value, new fields)"""
         P, f = self.P, self.f
-        fields = dict(fields)
+        fields = fields if share else dict(fields)
         vals = {}
         for k, v in args.items():
             vals[k] = v
+        for k in (arrays or {}):
+            vals[k] = ("arr", k, 0)
         if self.ptr_param is not None:
             vals[self.ptr_param] = ("ptr", None)
 
@@ -81,7 +89,38 @@ class FEval:
                 op = i.op
                 if op == "phi":
                     continue
-                if op == "getelementptr":
+                if op == "getelementptr" and isinstance(val(i.a[0]), tuple) and val(i.a[0])[0] == "arr":
+                    base = val(i.a[0])
+                    off = base[2]
+                    for stp in i.path:
+                        if stp[0] not in ("p", "a"):
+                            raise AnalysisBroken("feval: unsupported address computation at %s" % i.loc)
+                        idx = val(stp[1])
+                        bits = _bits(self.optype.get(stp[1]) if isinstance(stp[1], int) else "i%d" % stp[1][2])
+                        off += _signed(idx, bits) * stp[2]
+                    vals[i.id] = ("arr", base[1], off)
+                elif op == "bitcast":
+                    vals[i.id] = val(i.a[0])
+                elif op == "call" and i.callee and i.callee.startswith("llvm.dbg"):
+                    pass
+                elif op == "call" and i.callee and i.callee.startswith("llvm.expect"):
+                    vals[i.id] = val(i.a[0])
+                elif op == "call" and i.callee and callees and i.callee in callees:
+                    sub = callees[i.callee]
+                    if val(i.a[0]) != ("ptr", None):
+                        raise AnalysisBroken("feval: call at %s does not pass the state pointer first" % i.loc)
+                    sargs = {k: val(a) for k, a in enumerate(i.a) if k != 0}
+                    r, _ = sub.run(fields, sargs, max_steps=max_steps, callees=callees, share=True)
+                    if r is not None:
+                        vals[i.id] = r
+                elif op == "load" and isinstance(val(i.a[0]), tuple) and val(i.a[0])[0] == "arr":
+                    pa = val(i.a[0])
+                    data = arrays[pa[1]]
+                    nb = max(1, _bits(i.ty) // 8)
+                    if pa[2] < 0 or pa[2] + nb > len(data):
+                        raise OutOfInput("%s reads %d byte(s) at offset %d of an input of %d byte(s) (%s)" % (f.srcname, nb, pa[2], len(data), i.loc))
+                    vals[i.id] = int.from_bytes(data[pa[2]:pa[2] + nb], "little")
+                elif op == "getelementptr":
                     base = val(i.a[0])
                     if base == ("ptr", None) and len(i.path) == 2 and i.path[1][0] == "f" and i.path[1][1] == self.struct \
                             and P.const_int(i.path[0][1]) == 0:
